@@ -1300,6 +1300,44 @@ def run_C20(ctx):
             ctx.report('obligation:' + broken[0], f'proof obligation(s) no longer check: {broken[:5]}', {'broken': broken}, found=False)
 
 
+
+def tie_f64_cents(ctx, n):
+    return run_stream(ctx, 'f64_stream', 'f64', n, 'f64',
+                      "binary64 arithmetic, round(x, n), '%.nf', float(str), sum, and the CENTS family (cent-valued operands, chains of +-terms, max/min with 0.0, comparisons at equal/adjacent cents; lemma conclusions checked on the CPython result): CPython vs the Lean softfloat, bit for bit")
+
+
+def run_C15(ctx):
+    import tax_oracles as to
+    broken = check_obligations(ctx, PROPS['C15']['theorems'])
+    runs = real_runs(ctx, ctx.n(60, 900))
+    dis = tie_real(ctx, runs)
+    dis += [{'diff': str(d)[:400]} for d in tie_f64_cents(ctx, ctx.n(20000, 300000))]
+    bad, checked, solved = [], 0, 0
+    extra = []
+    import scenarios as sc
+    for k in range(ctx.n(40, 600)):        # scenarios aimed at refunds / amounts owed / applied-to-next-year
+        year = (2021, 2022, 2023)[k % 3]
+        sd = f'{ctx.seed}/c15/{k}'
+        pol, kind = sc.gen_policy(sd, year, kind=['plain', 'itemize', 'rich', 'deps', 'hsa'][k % 5])
+        pol.fixed['1040.apply_to_estimated_tax'] = ['0', '', '250', '1000.55', '5000', '99999'][(k // 3) % 6]
+        pol.fixed['estimated_tax_payments'] = ['0', '1500', '12000.5', '40000'][(k // 18) % 4]
+        r = sc.run(year, sc.request_for(sd, year, kind) if k % 4 else ['1040', 'nc_d-400'], pol)
+        r['kind'], r['scenario_seed'] = kind, sd
+        extra.append(r)
+    for r in runs + extra:
+        if r['exception'] is None and r['ok'] and to.nonneg_inputs(r):
+            solved += 1
+            for key, msg in to.oracle_c15(r):
+                bad.append((key, msg, scenario_replay(r)))
+    ctx.statement['c15-balance'] = {
+        'checked': solved, 'violations': len(bad), 'distinct_nontrivial': solved,
+        'rule': 'every solved real return (non-negative input amounts): federal balance identities in exact cents (34-37 = 33-24, not both positive, 35a+36 = 34), NC likewise (26a/28/33/34 vs 19/25), and every float line non-negative except the documented signed helper nc_d-400.refund; scenarios include refunds, amounts owed, apply-to-next-year above and below the overpayment, estimated payments, itemizing, NC',
+        'samples': [{'year': r['year'], 'kind': r.get('kind')} for r in (runs + extra)[:2]]}
+    for key, msg, rep in bad:
+        ctx.report('balance:' + key, msg, {'kind': 'scenario', 'case': rep})
+    finish_tie(ctx, broken, dis, found=bool(bad))
+
+
 PROPS = {
     'C01': dict(run=run_C01, theorems=[
         'HabuVerif.C01.solved_sound', 'HabuVerif.C01.failed_complete',
@@ -1347,6 +1385,11 @@ PROPS = {
     'C20': dict(run=run_C20, theorems=['HabuVerif.C20.answers_and_file_kept', 'HabuVerif.C20.file_left_behind_wellformed', 'HabuVerif.C20.rerun_does_not_ask_again'],
         assumptions=['the process is not killed DURING the write itself (the file is opened with truncation): outside the listed interruption kinds and outside the model',
                      'answers with surrounding blanks are stored raw and re-read stripped (every Input.value strips): still provided, same meaning']),
+    'C15': dict(run=run_C15, theorems=['HabuVerif.C15.' + t for t in [
+        'shapes_2021', 'shapes_2022', 'shapes_2023', 'overpayment_and_amount_owed', 'refund_and_applied',
+        'solved_return_balances', 'stored_money_is_cent_valued', 'over_owed', 'refund_split']],
+        assumptions=['PARTIAL: proved for the federal balance lines (1040 lines 34, 35a, 36, 37) in exact cents, amounts up to 1e13 cents; the NC balance and the non-negativity of the other lines are checked on explored returns only (no verified sign analysis yet)',
+                     'CatWF of the translated catalogue is a hypothesis of solved_return_balances (names are form.line)']),
     'C17': dict(run=run_C17, theorems=['HabuVerif.C17.' + t for t in [
         'names_unique', 'threshold_lookup_total', 'all_threshold_lookups_total', 'names_clean',
         'every_class_instantiates', 'declared_year_is_directory_year', 'metadata_present']],
